@@ -15,7 +15,7 @@ Definition modelled (p : program) : bool :=
                           | _ :: r => existsb (fun h => match h with HAgg _ _ => true | _ => false end) r
                           | [] => false end) p).
 Definition corr_model (fuel : nat) (p : program) (edb : db) (impl : option (list tuple)) : bool :=
-  if negb (modelled p) || existsb assign_eq_conflict p then true else
+  if negb (modelled p) then true else
   if negb (stratified p) then match impl with None => true | Some _ => false end else
   if modelled p then
     match eval_engine fuel p edb with
@@ -30,7 +30,6 @@ Definition agg_not_last (c : clause) : bool :=
   | [] => false
   end.
 Definition known_of (p : program) : N :=
-  if existsb assign_eq_conflict p then 4 else
   if existsb agg_not_last p then 3 else
   if existsb (fun h => self_rec p h && existsb has_agg (clauses_of p h)) (heads p) then 2
   else if mutual_recursion p then 1 else 0.
